@@ -6,6 +6,9 @@ CHECKS = {
  "C05": dict(cat="proof", tech="Coq proof (symbolic execution on the zero-extended stack view + simulation lemma) over op lists regenerated from the real assembler; model/implementation and spec/implementation correspondence",
    text="Coq theorems over coq/Gen/AsmGen.v (op lists dumped from the real assembler on every run): every stack-manipulation form (dup/swap/movup/movdn/dupw/swapw/movupw/movdnw for all n, drop, dropw, padw, swapdw, cswap, cdrop, cswapw, cdropw), field/boolean/assert instructions, checked and unchecked u32 arithmetic, and the unbounded-immediate forms push/add/sub/mul/div/eq (for EVERY immediate) meet their documented effect and documented failures on EVERY stack (all positions); depth floor and LIFO theorems for all op sequences. Instruction forms without a theorem yet are covered by the op-level correspondence only.",
    note="Trusted: Coq kernel; translator `mvh run asmdump` + lib/instrs.py (AsmGen.v); hand-written op semantics coq/Vm/Pure.v tied to processor/src/operations by the exec correspondence; hand-written transcription of immediate expansions tied to the assembler on a grid (imm_table_agrees); specs written from docs/src/user_docs/assembly. No axioms."),
+ "C06": dict(cat="proof", tech="Coq proof (interpreter unfolding theorems, join-tree order by induction over free join trees, span-merge invariant) + lowering translator-validation and execution correspondence",
+   text="Coq theorems over the interpreter model and the lowering model: if/else and while take exactly the branch selected by the popped value and fail with NotBinary for any other value at an if, at loop entry and after every iteration (c06_if, c06_while_entry, c06_while_iteration); the MAST built for a block sequence is a join tree whose leaves are the blocks in textual order and JOIN runs its children in order (c06_join_order, c06_join_runs_children_in_order); span merging keeps the op sequence; repeat.n contributes n copies of its body's block; exec contributes the callee's code; the locals prologue/epilogue restore fmp. The lowering model is compared with the real assembler on MAST structure and root hash for random ASTs; the interpreter with the real processor on the same programs with condition values 0,1,2,p-1 at every decision point.",
+   note="Trusted: Coq kernel; hand-written models coq/Vm/Exec.v and coq/Asm/Lower.v tied to processor/src/lib.rs, decoder/mod.rs and assembler/mod.rs by the sampled correspondences; state equality of repeat/exec with their textual expansion modulo the clock is observed (Rust-vs-Rust metamorphic runs), not proved. No axioms."),
  "C15": dict(cat="proof", tech="Coq proof (induction on fuel over the mutual interpreter, limit-parametric invariant) + model/implementation correspondence",
    text="Coq theorems c15_exact (same result under every limit >= the cycle count, CycleLimit after exactly m+1 clock increments below it), c15_total (no fuel exhaustion: every program stops within the limit) and c15_options over the interpreter model coq/Vm/Exec.v, proved for all programs, inputs and limits; the model is tied to processor/src by running the extracted model and the real processor on the same generated programs and limits.",
    note="Trusted: Coq kernel, extraction (ExtrOcamlBasic+ExtrOcamlZBigInt+ExtrOcamlNativeString), the exec correspondence (sampled), hand-written model of execute_code_block/advance_clock/ExecutionOptions::new. No axioms."),
